@@ -399,6 +399,15 @@ theorem C07_add_again_changes_nothing (norm : String → String) (rank : Nat) (d
   exact this ls (fun l hl => by rw [skOf_eq db' ls hd l hl]; exact hall l hl)
 
 
+/-- non-vacuity of `C07_add_again_changes_nothing`: the two-lexicon resource of the example above is added to the
+empty database, and adding it again to the result leaves the list of lexicons, entries and synsets as it is -/
+example : (match addResource (fun s => s) 127 Db.empty ⟨"1.1", [lexA, lexB]⟩ with
+    | .ok d => (match addResource (fun s => s) 127 d ⟨"1.1", [lexA, lexB]⟩ with
+        | .ok d2 => (d2.lexicons.map (·.id), d2.synsets.length, d2.lexicons.length == d.lexicons.length)
+        | .error _ => ([], 0, false))
+    | .error _ => ([], 0, false)) = (["a", "b"], 1, true) := by decide +kernel
+
+
 end OneFileOrMany
 
 end WnVerif.Props.C07
